@@ -1,10 +1,10 @@
 from checks.common import *
 
 SPEC = {
-    "translators": ["gen_snapshot"],
+    "translators": ["gen_snapshot", "gen_astarms"],
     "bins": ["c06"],
     "model_targets": ["Compiler/SnapshotCheck.vo"],
-    "proof_targets": ["Compiler/SnapshotProofs.vo"],
+    "proof_targets": ["Compiler/SnapshotProofs.vo", "Compiler/AccountingC06.vo"],
     "assumptions": [
         "compiler fields are abstracted to vectors / pattern-id maps / counters / opaque histories; a failing rule performs an arbitrary sequence of the field mutations that occur syntactically in the fallible region of c_rule (found transitively by the translator)",
         "hand classification of the 40 Compiler fields (Restored / ToleratedJunk pools / Diagnostics / PerRuleScratch / Config) and of the two fields handed out as `&mut` that are append-only (re_code, symbol_table): checked for exhaustiveness by Coq, validated by K",
